@@ -1024,7 +1024,7 @@ pub fn gen_acct_case(rng: &mut Rng) -> AcctCase {
             if rng.chance(1, 3) {
                 let stdin = rng.coin();
                 let p = benign_plan(rng, n);
-                let calls = (p.len() + 2).min(8);
+                let calls = iogen::hard_error_window(rng, p.len());
                 variants.push(Variant {
                     env_mask: 0,
                     stdin,
